@@ -25,6 +25,11 @@ def run(ck):
     proved = ck.prove(["C14Proofs.v"], "C14.v")
     rc, so, se = vlib.run_impl_script("c14_impl.py", [ck.seed, ck.tier], timeout=1500)
     if rc != 0:
+        last = [l for l in (se or "").splitlines() if l.startswith("BEGIN ")]
+        if rc in (139, -11, 134, -6) and last:
+            fnname, kind = last[-1][6:].split("|", 1)
+            ck.violation(f"C14:crash:{fnname}:{kind}", f"the interpreter died (exit {rc}) while {fnname} was evaluated on a {kind} input of valid elements "
+                         f"(the kernels index the geometry tables without bounds checks: a mis-read input becomes a wild index)", {"function": fnname, "kind": kind, "exit": rc})
         ck.tie_broken("correspondence", "configuration matrix", (se or so)[-1500:])
         return
     res = json.loads(so)
